@@ -187,6 +187,9 @@ func (w *WF) Describe() string {
 		if n.Prepend != "" {
 			fmt.Fprintf(&b, " prepend=%q", n.Prepend)
 		}
+		if n.NoSpawn {
+			b.WriteString(" spawn=false")
+		}
 		if n.Prefix != "" {
 			fmt.Fprintf(&b, " prefix=%q", n.Prefix)
 		}
